@@ -65,7 +65,9 @@ func VerifH_IncludeEquivalence() {
 	verifrt.Assume(lines[1+kr+1].parent == -1)
 	inc := verifRender(run)
 	split := verifRender(lines[:2]) + "INCLUDE inc.jst\n" + verifRender(lines[2+kr:3+kr]) + "INCLUDE inc.jst\n"
+	verifFSInit()
 	verifFiles = map[string][]byte{verifDir + "/inc.jst": []byte(inc)}
+	verifFSWrite(verifFiles)
 	verifrt.Note("inline", inline)
 	verifrt.Note("split", split)
 	verifrt.Note("inc.jst", inc)
